@@ -101,8 +101,8 @@ public:
   const char* Name() const override { return "reusesim"; }
   std::vector<std::string> Properties() const override { return { "C18", "C04" }; }
   uint64_t DefaultRuns(const std::string&, bool thorough) const override { return thorough ? 200000 : 6000; }
-  Cfg GenCfg(Rng& r, const std::string& focus, bool) override {
-    Cfg c; c["steps"] = r.Range(10, 60); c["clients"] = r.Range(2, 4);
+  Cfg GenCfg(Rng& r, const std::string& focus, bool thorough) override {
+    Cfg c; c["steps"] = thorough ? r.Range(10, 120) : r.Range(10, 60); c["clients"] = r.Range(2, 4);
     c["expr_depth"] = r.Range(1, 3); c["p_mutant"] = r.Range(5, 50); c["p_multiline"] = r.Range(0, 25); c["p_ascii"] = r.Range(0, 30); c["p_reuse_locals"] = r.Range(0, 30);
     static const std::vector<int> its{ 20, 200, 2000 }; c["max_iterations"] = r.Pick(its);
     static const std::vector<int> lim{ 0, 1, 2, 5, 100 }; c["cache_limit"] = r.Pick(lim);
